@@ -387,6 +387,63 @@ def run(ctx):
             r.fail(stl, n.ast, norm(n.ast), "the text between two tokens is synthesised (%s) instead of copied from the source line: tabs and other gap characters are not shown verbatim" % norm(v))
 
     theme_null_rule(ctx, "C20-R5", reference=4)
+
+    # ---------------------------------------------------------------- R8
+    from .c17 import memo_key_rule
+
+    r = ctx.rule("C20-R8", "CACHEKEY", "the snippet memo cannot hand out the snippet of another frame or stream: its key covers every input "
+                 "of the memoised value (the whole frame - file, line number, content - and the stream's capabilities; same rule as C17-R4)", reference=1)
+    memo_key_rule(ctx, r, only_module="clikit.ui.components.exception_trace")
+
+    # ---------------------------------------------------------------- R9
+    r = ctx.rule("C20-R9", "EXC", "tokenising one source line out of its context (the frame's line at -v/-vv: an unfinished call, a "
+                 "continuation, the edge of a triple-quoted string) can raise tokenize.TokenError: every such call is under a handler "
+                 "for it", reference=1)
+    def tokenises(f):
+        return any(isinstance(c.func, ast.Attribute) and isinstance(c.func.value, ast.Name) and c.func.value.id == "tokenize" for c in q.calls(f))
+    n_tok = 0
+    for m in et.methods.values():
+        cfg = ctx.cfg(m)
+        for cs in ctx.cg.sites_in(m):
+            if not any(ctx.cg.reaches(t, tokenises) for t in cs.targets if t.cls is not et):
+                continue
+            args = list(cs.node.args) + [k.value for k in cs.node.keywords]
+            partial = any(isinstance(x, ast.Attribute) and x.attr == "line" for a in args for x in walk_no_nested(a))
+            if not partial:
+                continue
+            n_tok += 1
+            protected = False
+            for cn in cfg.nodes_of(cs.node):
+                for s_, k in cfg.succ[cn.id]:
+                    sn = cfg.nodes[s_]
+                    if k == "e" and sn.kind == "except":
+                        h = sn.ast
+                        names = [] if h.type is None else [norm(x) for x in (h.type.elts if isinstance(h.type, ast.Tuple) else [h.type])]
+                        if h.type is None or any(nm.endswith("TokenError") or nm in ("Exception", "BaseException") for nm in names):
+                            protected = True
+            if protected:
+                r.ok("%s: %s under a handler for TokenError" % (m.short, norm(cs.node)[:60]))
+            else:
+                r.fail(m, cs.node, (cs.node.func.attr if isinstance(cs.node.func, ast.Attribute) else norm(cs.node.func)) + "(<frame line>) without TokenError handler", "%s tokenises a single frame line with no handler for tokenize.TokenError around it: "
+                       "a frame whose line is an incomplete statement makes rendering the trace raise" % m.short)
+    if n_tok == 0:
+        r.vacuous_ok = True
+        r.note("no single-line tokenising call left in ExceptionTrace")
+
+    # ---------------------------------------------------------------- R10
+    r = ctx.rule("C20-R10", "TABLE", "one notion of 'line' in the snippet: the highlighter normalises line ends to '\\n' and the tokenizer counts "
+                 "'\\n' only, so text is cut into lines at '\\n' only - never with str.splitlines(), which also cuts at form feed, "
+                 "\\x1c-\\x1e, \\x85, U+2028/9 and shifts every later line number", reference=1)
+    hl = ctx.cls("clikit.ui.components.exception_trace.Highlighter")
+    for m in sorted(hl.methods.values(), key=lambda f: f.name):
+        for c in q.calls(m):
+            if isinstance(c.func, ast.Attribute) and c.func.attr == "splitlines":
+                r.fail(m, c, norm(c), "%s cuts text into lines with splitlines(): a multi-line token containing a form feed or U+2028 yields more lines than the "
+                       "tokenizer counted, so the numbered snippet marks the wrong line" % m.short)
+            elif isinstance(c.func, ast.Attribute) and c.func.attr == "split" and c.args and isinstance(c.args[0], ast.Constant) and c.args[0].value == "\n":
+                r.ok("%s: %s" % (m.short, norm(c)))
+    if r.n == 0:
+        r.vacuous_ok = True
     return ctx.results
 
 
